@@ -392,7 +392,87 @@ func (l *linAcc) add(t *Term, k *big.Int) {
 	}
 }
 
+// sliceOf recognises digit slices of a base term X:
+//
+//	(X div a) mod m  -> [a, a*m)     X mod m -> [1, m)     X div a -> [a, inf)
+func sliceOf(t *Term) (X *Term, a, hi *big.Int, ok bool) {
+	switch t.Op {
+	case OMod:
+		if !t.Args[1].IsConst() {
+			return
+		}
+		m := t.Args[1].C
+		in := t.Args[0]
+		if in.Op == ODiv && in.Args[1].IsConst() {
+			return in.Args[0], in.Args[1].C, new(big.Int).Mul(in.Args[1].C, m), true
+		}
+		return in, big1, m, true
+	case ODiv:
+		if !t.Args[1].IsConst() {
+			return
+		}
+		return t.Args[0], t.Args[1].C, nil, true
+	}
+	return
+}
+
+// mergeSlices joins adjacent digit slices of the same base that occur with
+// matching weights: k*a1*slice[a1,b) + k*b*slice[b,c) = k*a1*slice[a1,c).
+func (c *Ctx) mergeSlices(l *linAcc) bool {
+	type sl struct {
+		id    int
+		X     *Term
+		a, hi *big.Int
+		coef  *big.Int
+	}
+	byX := map[int][]sl{}
+	for id, t := range l.terms {
+		X, a, hi, ok := sliceOf(t)
+		if !ok {
+			continue
+		}
+		byX[X.ID] = append(byX[X.ID], sl{id, X, a, hi, l.coef[id]})
+	}
+	for _, g := range byX {
+		if len(g) < 2 {
+			continue
+		}
+		for i := range g {
+			for j := range g {
+				if i == j || g[i].hi == nil || g[i].hi.Cmp(g[j].a) != 0 {
+					continue
+				}
+				// weights: coef_i / a_i == coef_j / a_j
+				if new(big.Int).Mul(g[i].coef, g[j].a).Cmp(new(big.Int).Mul(g[j].coef, g[i].a)) != 0 {
+					continue
+				}
+				X, a, hi, k := g[i].X, g[i].a, g[j].hi, new(big.Int).Set(g[i].coef)
+				delete(l.terms, g[i].id)
+				delete(l.coef, g[i].id)
+				delete(l.terms, g[j].id)
+				delete(l.coef, g[j].id)
+				var nt *Term
+				switch {
+				case hi == nil && a.Cmp(big1) == 0:
+					nt = X
+				case hi == nil:
+					nt = c.DivC(X, a)
+				case a.Cmp(big1) == 0:
+					nt = c.ModC(X, hi)
+				default:
+					nt = c.ModC(c.DivC(X, a), new(big.Int).Quo(hi, a))
+				}
+				l.add(nt, k)
+				return true
+			}
+		}
+	}
+	return false
+}
+
 func (c *Ctx) buildLin(l *linAcc) *Term {
+	for n := 0; n < 64 && len(l.terms) >= 2 && c.mergeSlices(l); n++ {
+	}
 	// rule: k*c*Div(X,c) + k*Mod(X,c) -> k*X  (c constant)
 	for changed := true; changed; {
 		changed = false
